@@ -70,8 +70,10 @@ impl Prop for Postfilter {
         Case { rate, alpha, beta, cepstrum }
     }
     fn check(&self, c: &Case) -> Result<Report, Failure> {
-        let plain = measure_pulse(&c.cepstrum, 0, false, c.rate, c.alpha, 0.0, 1.0);
-        let post = measure_pulse(&c.cepstrum, 0, false, c.rate, c.alpha, c.beta, 1.0);
+        // (the log-gain flag belongs to the LSP family and must not matter: set in a fifth of the cases)
+        let flag = c.cepstrum.len() % 5 == 0;
+        let plain = measure_pulse(&c.cepstrum, 0, flag, c.rate, c.alpha, 0.0, 1.0);
+        let post = measure_pulse(&c.cepstrum, 0, flag, c.rate, c.alpha, c.beta, 1.0);
         let mut rep = Report::new();
         let len = c.cepstrum.len();
         if c.beta == 0.0 || len <= 2 {
